@@ -78,7 +78,10 @@ def run_core_case(c):
                                             tRC=None, tRAS=None, tZQCS=None))
     phy, geom, timing, clk, _ = build_settings(mem)
     cs = dict(cmd_buffer_depth=c["cmd_buffer_depth"], with_refresh=c["refresh"])
-    spec = dict(clock_domain="user")
+    cd = c.get("clock_domain", "user")
+    spec = dict(clock_domain=cd)
+    if c.get("reverse"):
+        spec["reverse"] = True
     if c["data_width"]:
         spec["data_width"] = c["data_width"]
     dut = CoreDUT(phy, geom, timing, clk, cs, [spec])
@@ -96,7 +99,9 @@ def run_core_case(c):
             out.append(ref.get(rank, bank, row, colw)[ba % core_bytes])
         return bytes(out)
 
-    oracle = MemOracle(ub, init=init_fn)
+    # with reverse=True the converter presents a (consistent) permuted byte view: initial contents are then learnt from
+    # the first read instead of being derived from the DRAM layout
+    oracle = MemOracle(ub, init=None if c.get("reverse") else init_fn)
     aw = port.address_width
     scale = max(1, core_bytes // ub) if ub < core_bytes else 1
     row_base = r.randrange(1 << (aw - 10)) << 10
@@ -147,9 +152,12 @@ def run_core_case(c):
             yield port.flush.eq(1 if m.issued_all else 0)
             yield
 
-    clocks = {"sys": (c["psys"], c["phsys"]), "user": (c["pusr"], c["phusr"])}
-    cycles, reason = run_sim(dut, [ref.process()], done_fn, 400000, clocks=clocks, wall_limit=1200,
-                             extra={"user": [m.process(), flusher()]})
+    if cd == "sys":
+        cycles, reason = run_sim(dut, [ref.process(), m.process(), flusher()], done_fn, 400000, wall_limit=1200)
+    else:
+        clocks = {"sys": (c["psys"], c["phsys"]), "user": (c["pusr"], c["phusr"])}
+        cycles, reason = run_sim(dut, [ref.process()], done_fn, 400000, clocks=clocks, wall_limit=1200,
+                                 extra={"user": [m.process(), flusher()]})
     if reason == "wall":
         return dict(verdict="inconclusive", why="wall-clock watchdog", violations=[], stats={}, nontrivial=False, signature="")
     v = list(violations)
